@@ -231,7 +231,7 @@ def tla_val(v):
             return v[1:]
         return '"%s"' % v
     if isinstance(v, (set, frozenset)):
-        return "{" + ", ".join(tla_val(x) for x in sorted(v, key=str)) + "}"
+        return "{" + ", ".join(tla_val(x) for x in sorted(v, key=str)) + "}"   # {} for the empty set
     if isinstance(v, (list, tuple)):
         return "<<" + ", ".join(tla_val(x) for x in v) + ">>"
     raise ValueError(v)
